@@ -95,6 +95,33 @@ def dedup {α : Type} [DecidableEq α] : List α → List α
   | [] => []
   | a :: l => if a ∈ l then dedup l else a :: dedup l
 
+/-! ## validation (`service/pipelines/config.go`), run by `otelcol` on the configuration before it is built
+
+`validate` returns error classes only: it has no way to hand back a different configuration — validation is
+read-only by construction here; for the implementation that is an obligation of its own, checked by the harness on
+every case (dump of the `pipelines.Config` value before and after `xconfmap.Validate`, and `graph.Build` is run on
+the very value that was validated). -/
+
+inductive ValErr
+  | noReceivers    -- "must have at least one receiver"
+  | noExporters    -- "must have at least one exporter"
+  | dupProcessor   -- "references processor … multiple times"
+deriving DecidableEq, Repr
+
+def hasDup : List CompId → Bool
+  | [] => false
+  | a :: l => decide (a ∈ l) || hasDup l
+
+/-- `PipelineConfig.Validate`: the first failing check -/
+def validatePipe (p : Pipeline) : Option ValErr :=
+  if p.recv.isEmpty then some .noReceivers
+  else if p.exps.isEmpty then some .noExporters
+  else if hasDup p.procs then some .dupProcessor
+  else none
+
+/-- `xconfmap.Validate(pipelines.Config)`: every pipeline is validated, the errors are joined (classes, deduplicated) -/
+def validate (cfg : Cfg) : List ValErr := dedup (cfg.pipes.filterMap validatePipe)
+
 /-! ## createNodes -/
 
 /-- `connectorsAsExporter[c]` -/
